@@ -174,7 +174,7 @@ def schedule(chk):
     from checks.c01 import configs
 
     cfgs = configs(True)
-    if not chk.quick:
+    if True:
         full = configs(False)
         # every (kind, forcing, free stream, filter type, solver) combination once
         seen = set()
